@@ -5,6 +5,7 @@
 -/
 import VerdeModel.Lemmas.Coords
 import VerdeModel.Gen.Coords
+import Mathlib.Analysis.SpecialFunctions.Complex.Arg
 namespace Verde.C07
 open Verde
 
@@ -325,6 +326,23 @@ theorem profile_endpoints (p1 p2 : Rat × Rat) (n : Nat) (hn : 2 ≤ n) :
     have : ((n - 1 : Nat) : Rat) / ((n : Rat) - 1) = 1 := by
       rw [Nat.cast_sub (by omega : 1 ≤ n)]; push_cast; exact div_self hn1
     simp [this]
+
+/-- **The code's trigonometric form equals the model's algebraic form** (over ℝ).  `profile_coordinates` computes
+    `separation = hypot(dx, dy)`, `angle = arctan2(dy, dx)` (= `Complex.arg (dx + i·dy)`, also at `dx = dy = 0`) and places
+    point `t` at `p1 + distance_t·(cos angle, sin angle)` with `distance_t = f·separation`, `f = t/(size−1)`; this is
+    `p1 + f·(dx, dy)`, the form `profilePoints` uses — for every segment, including degenerate and axis-parallel ones. -/
+theorem profile_trig_eq_algebraic (dx dy f : ℝ) :
+    (f * Real.sqrt (dx ^ 2 + dy ^ 2)) * Real.cos (Complex.arg ⟨dx, dy⟩) = f * dx ∧
+    (f * Real.sqrt (dx ^ 2 + dy ^ 2)) * Real.sin (Complex.arg ⟨dx, dy⟩) = f * dy := by
+  have hnorm : ‖(⟨dx, dy⟩ : ℂ)‖ = Real.sqrt (dx ^ 2 + dy ^ 2) := by
+    rw [Complex.norm_def, Complex.normSq_mk]; congr 1; ring
+  by_cases hz : (⟨dx, dy⟩ : ℂ) = 0
+  · have hx : dx = 0 := by simpa using congrArg Complex.re hz
+    have hy : dy = 0 := by simpa using congrArg Complex.im hz
+    subst hx; subst hy; simp
+  · have hpos : 0 < Real.sqrt (dx ^ 2 + dy ^ 2) := by rw [← hnorm]; exact norm_pos_iff.mpr hz
+    rw [Complex.cos_arg hz, Complex.sin_arg, hnorm]
+    constructor <;> field_simp
 
 theorem profile_nonpositive_size_rejected (p1 p2 : Rat × Rat) (n : Int) (h : n ≤ 0) :
     profilePoints p1 p2 n = .error .valueError := by simp [profilePoints, h]
